@@ -193,7 +193,8 @@ def props_obligations(spec):
         if b.startswith('Closed'):
             res['axioms'][name] = []
         else:
-            axs = re.findall(r'^([A-Za-z_][A-Za-z0-9_\.\']*)\s*:', b, flags=re.M)
+            body = b.split('\n', 1)[1] if '\n' in b else ''      # skip the 'Axioms:' header line
+            axs = re.findall(r'^([A-Za-z_][A-Za-z0-9_\.\']*)\s*:', body, flags=re.M)
             res['axioms'][name] = axs
             for ax in axs:
                 if ax not in AXIOM_ALLOW and ax not in spec.get('axiom_allow', []):
@@ -455,7 +456,8 @@ def main():
 
     for kid, hits in sorted(known_hits.items()):
         k = known_by_id[kid]
-        print('KNOWN-FINDING: property=%s %s (e.g. %s; %d cases this run)' % (pid, k['what'], hits[0]['replay'], len(hits)))
+        eg = k.get('witness') or hits[0]['replay']
+        print('KNOWN-FINDING: property=%s %s: %s (witness: %s; %d cases in this class this run)' % (pid, k['id'], k['what'][:300], eg[:200], len(hits)))
     # a known finding whose witness no longer fails is simply not printed
 
     meta = corr['meta']
